@@ -549,6 +549,45 @@ def rule_r16(ctx):
         raise AnalysisBroken("only %d subprotocol checks found" % n)
 
 
+# ---------------------------------------------------------------------------
+# R17: what the frame layer changes in place is the frame's own storage
+
+
+def rule_r17(ctx):
+    r = ctx.rule("C16.R17", "T10", "masking happens in the frame's own storage: ws_mask_frame / ws_unmask_frame XOR the bytes at "
+                 "frame->buf in place, so every store to ws_frame.buf assigns storage that belongs to that frame (its adata or "
+                 "sdata field) or advances the pointer within it -- a frame that points at the caller's data (the body of a "
+                 "message that other pipes of a BUS or PUB socket are sending too) scribbles the mask over bytes it does not own",
+                 floor=4)
+    prog = ctx.prog
+    n = 0
+    for f in prog.fns_in("supplemental/websocket/websocket.c"):
+        if f.cfg_failed:
+            continue
+        for t in f.assigns():
+            l = t.node["lhs"]
+            if l.get("k") != "mem" or l.get("rec") != "ws_frame" or l["f"] != "buf":
+                continue
+            n += 1
+            rhs = f.expand(t.node["rhs"])
+            while rhs is not None and rhs.get("k") == "cast":
+                rhs = f.expand(rhs["e"])
+            own = rhs is not None and rhs.get("k") == "mem" and rhs.get("rec") == "ws_frame" and rhs["f"] in ("adata", "sdata") and \
+                same_expr(rhs["b"], l["b"])
+            if t.node.get("op") in ("+=", "-=") or own or is_null(rhs):
+                r.ob(f, "%s (line %s): the frame's own storage" % (show(t.node), t.line))
+            else:
+                ctx.fail(r, f, "frame->buf pointed at storage the frame does not own", t.line,
+                         "%s sets %s = %s at line %s: the frame's bytes are masked / unmasked in place (ws_apply_mask on "
+                         "frame->buf), which then changes data that belongs to somebody else -- for a message that is shared "
+                         "between pipes every other recipient gets the scribbled body" % (f.name, show(l), show(rhs), t.line))
+    if n < 4:
+        raise AnalysisBroken("only %d stores to ws_frame.buf found" % n)
+    if not any(c.node["args"] and (last_field(g.expand(c.node["args"][0])) or "") == "ws_frame.buf"
+               for g in prog.fns_in("supplemental/websocket/websocket.c") if not g.cfg_failed for c in g.calls("ws_apply_mask")):
+        raise AnalysisBroken("ws_apply_mask no longer works on ws_frame.buf in place")
+
+
 def run(ctx):
     ctx.guard(rule_r1)
     ctx.guard(rule_r2)
@@ -567,3 +606,4 @@ def run(ctx):
     ctx.guard(rule_r14)
     ctx.guard(rule_r15)
     ctx.guard(rule_r16)
+    ctx.guard(rule_r17)
